@@ -139,6 +139,17 @@ def handle (_ : Unit) (toks : List Tok) : Unit × String :=
         let al := allowed m.atoms m.edges mods
         pure (encNats al ++ " " ++ encBool (candsOk m.atoms m.edges mods given) ++ " "
           ++ encIdRes (identify m.atoms m.edges mods annot groups (al.zip given)))
+    | [Tok.str "history", jobs] => do
+        /- one processor instance, several calls: [ [atoms edges mods given sortmods] ... ] -/
+        let js ← (← jobs.list?).mapM fun jt => do
+          match ← jt.list? with
+          | [ats, es, ms, gv, sm] =>
+            let m ← molOf ats es
+            let mods ← (← ms.list?).mapM modifOf
+            pure ((m, mods, ← givenOf gv), ← boolOf sm)
+          | _ => none
+        let outs := ((Proc.mk).runHistory (js.map (·.1))).2
+        pure (String.intercalate " || " ((outs.zip (js.map (·.2))).map fun os => encOutcome os.2 os.1))
     | [Tok.str "fixptmref", ats, es, ms] => do
         let m ← molOf ats es
         let mods ← (← ms.list?).mapM modifOf
